@@ -14,8 +14,13 @@
                                admissible and describe the evolved chain
       noisy_nrun               so is the stream with stale notifications added
       follows_evolution(s)     C15, online part
-      sync_rollback_spec       C15, start-up rollback
+      sync_rollback_spec       C15, start-up rollback (also across the birthday block)
       startup_complete         rescan notifications + catchUpHashes after it
+      first_startup_spec / first_sync_follows
+                               C15, first synchronisation (birthdayStamp == nil)
+      sync_rollback_birthday   what the birthday-reset branch is for
+      sync_rollback_backend_lower, sync_rollback_fork_below_window, first_sync_repeated
+                               where the start-up gives up (the _partial theorems)
     All results about [handle]/[run] take the regenerated fact
     [disconnect_records_parent_hash = true] as a premise; [max_reorg_depth]
     stays symbolic ([0 < max_reorg_depth] follows from [Tracks]; it is a
@@ -254,6 +259,19 @@ Qed.
 Lemma Tracks_ext hdr c lo w w' :
   synced w' = synced w -> hashes w' = hashes w -> Tracks hdr c lo w -> Tracks hdr c lo w'.
 Proof. intros E1 E2 [? ? ? ? ? ?]. split; rewrite ?E1, ?E2; done. Qed.
+
+Lemma reset_birthday_same stamp w :
+  synced (reset_birthday stamp w) = synced w /\ hashes (reset_birthday stamp w) = hashes w /\
+  mined (reset_birthday stamp w) = mined w /\ unmined (reset_birthday stamp w) = unmined w /\
+  chain_synced (reset_birthday stamp w) = chain_synced w /\
+  birthday_set (reset_birthday stamp w) = birthday_set w.
+Proof.
+  unfold reset_birthday, crosses_birthday. destruct (birthday_set w) eqn:E; simpl; [|done].
+  destruct (_ && _); done.
+Qed.
+
+Lemma put_synced_to_bday bs w w' : put_synced_to bs w = Some w' -> bday w' = bday w.
+Proof. unfold put_synced_to. destruct (_ && _); [discriminate|]. by intros [= <-]. Qed.
 
 (** * The handlers keep the invariant *)
 
@@ -718,7 +736,9 @@ Section startup.
   (** The start-up loop ends at the last common block; if the wallet's tip is
       on the backend's chain nothing changes, otherwise synced-to becomes the
       last common block and the store is rolled back from exactly the height
-      above it. *)
+      above it.  The stored birthday block becomes the last common block when
+      the rollback went to or below its height and it is another block
+      ([crosses_birthday]); that never makes the transaction fail. *)
   Theorem sync_rollback_spec p a b lo w :
     consistent hdr (p ++ a) lo w -> p <> [] -> diverge a b -> (length a <= length b)%nat ->
     headers_known hdr (p ++ b) ->
@@ -758,9 +778,10 @@ Section startup.
         rewrite chain_at_app_l by lia. done. }
       rewrite Hw1. eexists. split; [done|]. split; [done|]. intros _.
       destruct (put_synced_to_spec _ _ _ Hw1) as (Es & Em & Eu & Ec & Eb & Ehs).
-      split; [by rewrite (proj1 (rollback_sync _ _)), Es|].
-      split; [by rewrite rollback_mined, Em|].
-      split; [simpl; by rewrite Ec|].
+      destruct (reset_birthday_same bs w1) as (Rs & Rh & Rm & Ru & Rc & Rb).
+      split; [by rewrite (proj1 (rollback_sync _ _)), Rs, Es|].
+      split; [by rewrite rollback_mined, Rm, Em|].
+      split; [simpl; by rewrite Rc, Ec|].
       rewrite tip_height_app in Hpr, Hlo'.
       split; simpl.
       + apply (Tracks_ext _ _ _ w1); [done|done|]. split.
@@ -774,7 +795,7 @@ Section startup.
           -- rewrite Hx in Hy. by injection Hy as <-.
           -- apply Hhs; [done|]. rewrite chain_at_app_l by lia. done.
         * intros y Hy. apply Hk. apply elem_of_app. by left.
-      + intros r Hr. rewrite rollback_mined, Em in Hr.
+      + intros r Hr. rewrite rollback_mined, Rm, Em in Hr.
         apply elem_of_list_filter in Hr as [Hlt Hr]. left.
         destruct (Htx r Hr) as [(y & Hy & Ey)|Hpe]; [|discriminate].
         exists y. split; [|done]. rewrite <- Hy. symmetry. apply chain_at_app_l.
@@ -903,6 +924,233 @@ Section startup.
   Qed.
 End startup.
 
+(** * C15, start-up: the first synchronisation, the birthday reset, and where
+      the loop gives up *)
+
+Lemma chain_at_None c h : tip_height c < h -> chain_at c h = None.
+Proof.
+  intros H. destruct (chain_at c h) as [b|] eqn:E; [|done]. apply chain_at_range in E. lia.
+Qed.
+
+Section startup_more.
+  Context (hdr : headers).
+
+  (** First synchronisation of a wallet that has no birthday block yet (and no
+      confirmed record): synced-to becomes the backend's block at the located
+      height, the located block is stored as (verified) birthday block, and
+      the wallet is consistent with the backend's chain cut at that height,
+      followed from that height. *)
+  Lemma first_sync_spec B loc w :
+    birthday_set w = false -> mined w = [] -> 0 < max_reorg_depth ->
+    headers_known hdr B -> 0 <= m_height loc <= tip_height B ->
+    exists w0, first_sync B hdr loc w = (w0, false) /\
+      birthday_set w0 = true /\ bday w0 = loc /\ mined w0 = [] /\ unmined w0 = unmined w /\
+      chain_synced w0 = chain_synced w /\ m_height (synced w0) = m_height loc /\
+      consistent hdr (take (S (Z.to_nat (m_height loc))) B) (m_height loc) w0.
+  Proof.
+    intros Hb Hm Hd Hk Hr. unfold first_sync.
+    destruct (chain_at_is_Some B (m_height loc) Hr) as [cb Hcb]. rewrite Hcb.
+    destruct (Hk cb (chain_at_elem _ _ _ Hcb)) as [t Ht]. rewrite Ht.
+    set (bs := {| m_height := m_height loc; m_hash := bh cb; m_time := t |}).
+    destruct (put_synced_to_Some bs w) as [w1 Hw1]; [by right; left|].
+    rewrite Hw1. eexists. split; [done|].
+    destruct (put_synced_to_spec _ _ _ Hw1) as (Es & Em & Eu & Ec & Eb & Ehs).
+    simpl. rewrite Em, Eu, Ec, Es. repeat (split; [done|]).
+    set (n := S (Z.to_nat (m_height loc))).
+    assert (Hn : (n <= length B)%nat) by (unfold tip_height in Hr; lia).
+    assert (Htip : tip_height (take n B) = m_height loc) by (rewrite tip_height_take by done; lia).
+    assert (Hat : chain_at (take n B) (m_height loc) = Some cb) by (rewrite chain_at_take by lia; done).
+    split; [split|]; simpl.
+    - by rewrite Es, Htip.
+    - rewrite Es, Htip. exists cb. done.
+    - rewrite Htip. lia.
+    - rewrite Htip. lia.
+    - intros h y Hh Hy. pose proof (chain_at_range _ _ _ Hy) as Hry. rewrite Htip in Hry.
+      assert (h = m_height loc) as -> by lia.
+      rewrite Ehs by (simpl; lia). simpl. rewrite decide_True by done.
+      rewrite Hat in Hy. by injection Hy as <-.
+    - intros y Hy. apply Hk. apply elem_of_take in Hy as (i & Hi & _). by eapply elem_of_list_lookup_2.
+    - intros r Hr'. simpl in Hr'. rewrite Em, Hm in Hr'. by apply elem_of_nil in Hr'.
+  Qed.
+
+  (** The whole first start-up attempt: the rollback loop that follows finds
+      the block just stored and changes nothing. *)
+  Theorem first_startup_spec B loc w :
+    birthday_set w = false -> mined w = [] -> 0 < max_reorg_depth ->
+    headers_known hdr B -> 0 <= m_height loc <= tip_height B ->
+    exists w0, startup true B hdr loc w = (w0, false) /\
+      birthday_set w0 = true /\ bday w0 = loc /\ mined w0 = [] /\ unmined w0 = unmined w /\
+      chain_synced w0 = chain_synced w /\ m_height (synced w0) = m_height loc /\
+      consistent hdr (take (S (Z.to_nat (m_height loc))) B) (m_height loc) w0.
+  Proof.
+    intros Hb Hm Hd Hk Hr.
+    destruct (first_sync_spec B loc w Hb Hm Hd Hk Hr) as (w0 & Hw0 & H1 & H2 & H3 & H4 & H5 & H6 & Hc).
+    exists w0. split; [|done].
+    unfold startup. rewrite Hw0.
+    set (n := S (Z.to_nat (m_height loc))) in *.
+    assert (Hn : (n <= length B)%nat) by (unfold tip_height in Hr; lia).
+    destruct (sync_rollback_spec hdr (take n B) [] (drop n B) (m_height loc) w0) as (w' & Hw' & Hnil & _).
+    - by rewrite app_nil_r.
+    - intros E. pose proof (take_length B n) as HL. rewrite E in HL. change (length (@nil blk)) with 0%nat in HL. unfold n in *. lia.
+    - intros i x y Hx. done.
+    - simpl. lia.
+    - by rewrite take_drop.
+    - by left.
+    - rewrite take_drop in Hw'. rewrite Hw'. by rewrite (Hnil eq_refl).
+  Qed.
+
+  (** The backend's best chain is LOWER than the wallet's synced-to height:
+      the first GetBlockHash of the loop fails, the transaction fails, nothing
+      changes (waitForSync repeats the attempt after syncRetryInterval). *)
+  Theorem sync_rollback_backend_lower B w :
+    tip_height B < m_height (synced w) -> sync_rollback B hdr w = (w, true).
+  Proof.
+    intros H. unfold sync_rollback, walk_fuel.
+    replace (Z.to_nat (m_height (synced w)) + 2)%nat with (S (Z.to_nat (m_height (synced w)) + 1)) by lia.
+    simpl. destruct (hashes w !! m_height (synced w)); [|done].
+    by rewrite (chain_at_None _ _ H).
+  Qed.
+
+  Theorem startup_backend_lower B loc w :
+    tip_height B < m_height (synced w) -> startup false B hdr loc w = (w, true).
+  Proof. intros H. unfold startup. by apply sync_rollback_backend_lower. Qed.
+
+  (** A repetition of a first synchronisation whose first Update has already
+      committed (the attempt failed later: NotifyBlocks, the rescan request):
+      SetSyncedTo(birthday block) now runs under the predecessor check of
+      PutSyncedTo, and the hash of the height below the birthday block was
+      never stored. *)
+  Theorem first_sync_repeated B loc w :
+    birthday_set w = true -> 0 < m_height loc -> hashes w !! (m_height loc - 1) = None ->
+    first_sync B hdr loc w = (w, true) /\ startup true B hdr loc w = (w, true).
+  Proof.
+    intros Hb Hh Hn.
+    assert (E : first_sync B hdr loc w = (w, true)).
+    { unfold first_sync. destruct (chain_at B (m_height loc)) as [cb|]; [|done].
+      destruct (hdr !! bh cb) as [t|]; [|done].
+      unfold put_synced_to, has_height. simpl. rewrite Hb, Hn.
+      destruct (0 <? m_height loc) eqn:E; [done|lia]. }
+    split; [done|]. unfold startup. by rewrite E.
+  Qed.
+
+  (** The fork point lies below the heights the wallet remembers ([lo] is
+      above the last common block and no hash is stored for [lo - 1]): the
+      loop walks down to [lo - 1], BlockHash fails there, the transaction
+      fails, nothing changes - in every later attempt too, as long as the
+      backend stays on that branch. *)
+  Lemma walk_below_window p a b lo w :
+    Tracks hdr (p ++ a) lo w -> diverge a b -> (length a <= length b)%nat ->
+    headers_known hdr (p ++ b) -> tip_height p < lo -> hashes w !! (lo - 1) = None ->
+    forall n fuel rb, lo - 1 + Z.of_nat n <= tip_height (p ++ a) -> (n + 1 <= fuel)%nat ->
+      walk fuel (p ++ b) hdr w (lo - 1 + Z.of_nat n) rb = WErr.
+  Proof.
+    intros [Hh Hhash Hlo Hpr Hhs Hhdr] Hdiv Hlen Hk Hp Hnone.
+    induction n as [|n IH]; intros fuel rb Hr Hf; (destruct fuel as [|f]; [lia|]); simpl.
+    - rewrite Z.add_0_r, Hnone. done.
+    - set (h := lo - 1 + Z.of_nat (S n)) in *.
+      rewrite tip_height_app in Hr.
+      assert (Hi : tip_height p < h) by lia.
+      set (i := Z.to_nat (h - tip_height p - 1)).
+      destruct (lookup_lt_is_Some_2 a i) as [ya Hya]; [lia|].
+      destruct (lookup_lt_is_Some_2 b i) as [yb Hyb]; [lia|].
+      rewrite (Hhs h ya ltac:(lia)).
+      2:{ rewrite chain_at_app_r by done. done. }
+      rewrite chain_at_app_r by done. fold i. rewrite Hyb.
+      destruct (Hk yb) as [tb ->].
+      { apply elem_of_app. right. by eapply elem_of_list_lookup_2. }
+      destruct (bh ya =? bh yb)%N eqn:E.
+      { apply N.eqb_eq in E. by destruct (Hdiv i ya yb). }
+      replace (h - 1) with (lo - 1 + Z.of_nat n) by lia.
+      apply IH; [rewrite tip_height_app|]; lia.
+  Qed.
+
+  Theorem sync_rollback_fork_below_window p a b lo w :
+    consistent hdr (p ++ a) lo w -> diverge a b -> (length a <= length b)%nat ->
+    headers_known hdr (p ++ b) -> tip_height p < lo -> hashes w !! (lo - 1) = None ->
+    sync_rollback (p ++ b) hdr w = (w, true).
+  Proof.
+    intros [Htr _] Hdiv Hlen Hk Hp Hnone. simpl in Htr.
+    pose proof (tr_height _ _ _ _ Htr) as Hh. pose proof (tr_lo _ _ _ _ Htr) as Hlo.
+    unfold sync_rollback, walk_fuel. rewrite Hh.
+    set (T := tip_height (p ++ a)) in *.
+    replace T with (lo - 1 + Z.of_nat (Z.to_nat (T - lo + 1))) at 2 by lia.
+    rewrite (walk_below_window p a b lo w Htr Hdiv Hlen Hk Hp Hnone); [done|lia|lia].
+  Qed.
+
+  (** What the start-up rollback does to the stored birthday block: if it was
+      a block of the wallet's chain, it is a block of the common prefix
+      afterwards (the last common block itself when the rollback went to or
+      below the old birthday block). *)
+  Lemma sync_rollback_shape p a b lo w :
+    consistent hdr (p ++ a) lo w -> p <> [] -> diverge a b -> (length a <= length b)%nat ->
+    headers_known hdr (p ++ b) -> a <> [] -> disc_ok lo (tip_height p + 1) = true ->
+    exists x t w1, list.last p = Some x /\ hdr !! bh x = Some t /\
+      let stamp := {| m_height := tip_height p; m_hash := bh x; m_time := t |} in
+      put_synced_to stamp w = Some w1 /\
+      sync_rollback (p ++ b) hdr w = (rollback (tip_height p + 1) (reset_birthday stamp w1), false).
+  Proof.
+    intros [Htr Htx] Hp Hdiv Hlen Hk Ha Hok. simpl in *.
+    pose proof (tip_height_nonneg p Hp) as Hp0.
+    assert (Hlo : lo <= tip_height p) by (unfold disc_ok in Hok; lia).
+    unfold sync_rollback, walk_fuel.
+    pose proof (tr_height _ _ _ _ Htr) as Hh. rewrite Hh, tip_height_app.
+    destruct (walk_down hdr p a b lo w Htr Hp Hdiv Hlen Hk Hlo (length a)
+                (Z.to_nat (tip_height p + Z.of_nat (length a)) + 2)%nat false)
+      as (x & t & Ex & Et & ->); [lia|lia|].
+    exists x, t. destruct a as [|a0 a]; [done|]. simpl negb. cbv iota. simpl orb. cbv iota.
+    set (bs := {| m_height := tip_height p; m_hash := bh x; m_time := t |}).
+    destruct Htr as [_ Hhash Hlo' Hpr Hhs Hhdr].
+    destruct (put_synced_to_Some bs w) as [w1 Hw1].
+    { simpl. unfold disc_ok in Hok.
+      destruct (decide (tip_height p = 0)) as [E0|E0]; [left; lia|].
+      right; right. destruct (chain_at_is_Some p (tip_height p - 1)) as [q Hq]; [lia|].
+      rewrite (Hhs (tip_height p - 1) q ltac:(lia)); [eauto|].
+      rewrite chain_at_app_l by lia. done. }
+    exists w1. split; [done|]. split; [done|]. cbv zeta. split; [done|]. by rewrite Hw1.
+  Qed.
+
+  Theorem sync_rollback_birthday p a b lo w w' :
+    consistent hdr (p ++ a) lo w -> p <> [] -> diverge a b -> (length a <= length b)%nat ->
+    headers_known hdr (p ++ b) -> a <> [] -> disc_ok lo (tip_height p + 1) = true ->
+    birthday_set w = true ->
+    (forall h1 h2 b1 b2, chain_at (p ++ a) h1 = Some b1 -> chain_at (p ++ a) h2 = Some b2 ->
+                         bh b1 = bh b2 -> h1 = h2) ->
+    on_chain (p ++ a) (m_height (bday w)) (m_hash (bday w)) ->
+    sync_rollback (p ++ b) hdr w = (w', false) ->
+    birthday_set w' = true /\ on_chain p (m_height (bday w')) (m_hash (bday w')).
+  Proof.
+    intros Hc Hp Hdiv Hlen Hk Ha Hok Hbs Hinj Hon Hsr.
+    destruct (sync_rollback_shape p a b lo w Hc Hp Hdiv Hlen Hk Ha Hok) as (x & t & w1 & Ex & Et & Hw1 & Hsr').
+    cbv zeta in *. rewrite Hsr in Hsr'. injection Hsr' as ->.
+    set (stamp := {| m_height := tip_height p; m_hash := bh x; m_time := t |}) in *.
+    pose proof (put_synced_to_bday _ _ _ Hw1) as Eb.
+    destruct (put_synced_to_spec _ _ _ Hw1) as (_ & _ & _ & _ & Ebs & _).
+    pose proof (tip_height_nonneg p Hp) as Hp0.
+    assert (Hx : chain_at p (tip_height p) = Some x) by (by rewrite chain_at_tip).
+    destruct (reset_birthday_same stamp w1) as (_ & _ & _ & _ & _ & Rb).
+    split; [simpl; by rewrite Rb, Ebs|].
+    change (bday (rollback (tip_height p + 1) (reset_birthday stamp w1))) with (bday (reset_birthday stamp w1)).
+    unfold reset_birthday, crosses_birthday. rewrite Ebs, Hbs, Eb. simpl.
+    destruct (tip_height p <=? m_height (bday w)) eqn:E1; simpl.
+    - destruct (bh x =? m_hash (bday w))%N eqn:E2; simpl.
+      + (* same hash: then the same height *)
+        apply N.eqb_eq in E2. destruct Hon as (y & Hy & Ey).
+        assert (Hx' : chain_at (p ++ a) (tip_height p) = Some x) by (rewrite chain_at_app_l by lia; done).
+        assert (m_height (bday w) = tip_height p) as Eh.
+        { apply (Hinj _ _ y x Hy Hx'). congruence. }
+        rewrite Eb, Eh. exists x. split; [done|]. done.
+      + exists x. done.
+    - rewrite Eb. apply Z.leb_gt in E1. destruct Hon as (y & Hy & Ey). exists y. split; [|done].
+      rewrite <- Hy. symmetry. apply chain_at_app_l. lia.
+  Qed.
+
+  (** RescanProgress / RescanFinished for a height the wallet has already
+      reached: catchUpHashes has nothing to do. *)
+  Lemma catch_up_behind B height w :
+    height <= m_height (synced w) -> catch_up B hdr height w = (w, false).
+  Proof. intros H. unfold catch_up. destruct (height <=? m_height (synced w)) eqn:E; [done|lia]. Qed.
+End startup_more.
+
 (** Stop / evolve / start: rollback loop, rescan notifications, catchUpHashes. *)
 Section offline.
   Context (hdr : headers).
@@ -927,5 +1175,31 @@ Section offline.
       - by destruct Hcons as (_ & _ & _ & ?). }
     destruct (startup_complete hdr p b lo w0 txs Hc0 Hp Hk Htxs) as (w1 & w2 & Hw1 & Hw2 & Hcs & Hc2).
     exists w0, w1, w2. rewrite (run_fact hdr Hfact). done.
+  Qed.
+
+  (** First start of a wallet: locate (given), store, loop, rescan
+      notifications, RescanFinished - the wallet is consistent with the
+      backend's chain, followed from the located height. *)
+  Theorem first_sync_follows B loc w txs :
+    birthday_set w = false -> mined w = [] -> 0 < max_reorg_depth ->
+    headers_known hdr B -> 0 <= m_height loc <= tip_height B ->
+    Forall (rescan_ntfn B) txs ->
+    exists w0 w1 w2,
+      startup true B hdr loc w = (w0, false) /\
+      m_height (synced w0) = m_height loc /\ birthday_set w0 = true /\ bday w0 = loc /\
+      run hdr txs w0 = (w1, false) /\
+      rescan_finished B hdr (tip_height B) w1 = (w2, false) /\
+      chain_synced w2 = true /\
+      consistent hdr B (Z.max (m_height loc) (tip_height B - max_reorg_depth + 1)) w2.
+  Proof.
+    intros Hb Hm Hd Hk Hr Htxs.
+    destruct (first_startup_spec hdr B loc w Hb Hm Hd Hk Hr) as (w0 & Hw0 & H1 & H2 & _ & _ & _ & H6 & Hc).
+    set (n := S (Z.to_nat (m_height loc))) in *.
+    assert (Hn : (n <= length B)%nat) by (unfold tip_height in Hr; lia).
+    destruct (startup_complete hdr (take n B) (drop n B) (m_height loc) w0 txs Hc) as (w1 & w2 & Hw1 & Hw2 & Hcs & Hc2).
+    - intros E. pose proof (take_length B n) as HL. rewrite E in HL. change (length (@nil blk)) with 0%nat in HL. unfold n in *. lia.
+    - by rewrite take_drop.
+    - by rewrite take_drop.
+    - rewrite take_drop in *. exists w0, w1, w2. rewrite (run_fact hdr Hfact). done.
   Qed.
 End offline.
